@@ -40,6 +40,7 @@ type Session struct {
 	buf       strings.Builder
 	inPath    bool
 	seq       int
+	Abstract  bool // print division/remainder (and non-constant multiplication) as uninterpreted functions
 }
 
 func argv(kind string, timeoutMs int) []string {
@@ -144,7 +145,21 @@ func (s *Session) define(t *term.Term) {
 		s.send(term.UFSig[t.Name] + "\n")
 	}
 	s.defined[t.ID] = true
-	s.send("(define-fun " + t.Ref() + " () " + t.Sort.SMT() + " " + t.Body() + ")\n")
+	body := t.Body()
+	if s.Abstract {
+		switch t.Op {
+		case "bvudiv", "bvurem", "bvsdiv", "bvsrem", "bvmul":
+			if t.Op != "bvmul" || (!t.Args[0].IsConst() && !t.Args[1].IsConst()) {
+				fn := fmt.Sprintf("abs_%s_%d", t.Op, t.Sort.W)
+				if !s.declared["uf:"+fn] {
+					s.declared["uf:"+fn] = true
+					s.send(fmt.Sprintf("(declare-fun %s (%s %s) %s)\n", fn, t.Sort.SMT(), t.Sort.SMT(), t.Sort.SMT()))
+				}
+				body = "(" + fn + " " + t.Args[0].Ref() + " " + t.Args[1].Ref() + ")"
+			}
+		}
+	}
+	s.send("(define-fun " + t.Ref() + " () " + t.Sort.SMT() + " " + body + ")\n")
 }
 
 func (s *Session) Assert(t *term.Term) {
